@@ -181,6 +181,14 @@ func (r *Report) Finish(verifDir, tier string, seed int, start time.Time, extra 
 			ri.Instances-- // the guard itself is not an instance
 		}
 	}
+	// drop declared rules that had nothing to do in this property
+	var kept []*RuleInfo
+	for _, ri := range r.Rules {
+		if ri.Instances > 0 || ri.Min > 0 {
+			kept = append(kept, ri)
+		}
+	}
+	r.Rules = kept
 	known, err := loadKnown(filepath.Join(verifDir, "known-findings.json"))
 	if err != nil {
 		fmt.Printf("ERROR reading known findings: %v\n", err)
@@ -221,7 +229,13 @@ func (r *Report) Finish(verifDir, tier string, seed int, start time.Time, extra 
 			nKnown++
 			if !seenKnown[o.Rule+"\x00"+o.Key] {
 				seenKnown[o.Rule+"\x00"+o.Key] = true
-				fmt.Printf("KNOWN-FINDING: property=%s %s %s — %s (%s)\n", r.Prop, o.Rule, o.Key, k.What, o.Pos)
+				what := k.What
+				if i := strings.Index(what, ". "); i > 0 && i < 300 {
+					what = what[:i+1]
+				} else if len(what) > 300 {
+					what = what[:300] + "…"
+				}
+				fmt.Printf("KNOWN-FINDING: property=%s %s [%s] %s (%s)\n", r.Prop, o.Rule, o.Key, what, o.Pos)
 				matched = append(matched, o.Rule+" "+o.Key)
 			}
 			continue
